@@ -14,6 +14,7 @@ var (
 	Env   EnvType
 	Solo  [][]MalType // Solo[template][0]: result of the template run alone (prefix s)
 	Progs [][]MalType // Progs[prefix][template]: the AST for thread prefix a / b
+	Expected []MalType
 )
 
 // templates, %P is replaced by the thread's own name prefix
@@ -25,12 +26,15 @@ var templates = []string{
 	"(try %O-x (catch e :unbound))",
 	// the catch variable holds this evaluation's own thrown object while its handler runs
 	"(try (throw (quote %P-tag)) (catch e (do (shared-memo 2) (= e (quote %P-tag)))))",
+	"(do (def %P-m (memoize (fn [n] (+ n 1)))) (list (%P-m 2) (%P-m 2)))", // same argument as the shared memoized function: each has its own cache
 	"(let [v 3 w (+ v 1)] (list v w))",
 	"(do (def %P-f (fn [n] (if (< n 1) 0 (+ n (%P-f (- n 1)))))) (%P-f 3))",
 	"(cond false 1 (= 1 1) (or nil 7))",
-	"(do (def %P-m (memoize (fn [n] (+ n 1)))) (list (%P-m 1) (%P-m 1)))",
 	"(try (throw 1) (catch e (+ e 1)))",
 }
+
+// what each template returns by the definition of the language (the solo run must agree with it too)
+var expected = []string{"(5 6)", "(true false)", "12", "3", ":unbound", "true", "(3 3)", "(3 4)", "6", "7", "2"}
 
 // names the templates bind locally (let variables, parameters, catch variables): never visible in the shared environment
 var localNames = []string{"g", "h", "e", "v", "w", "n", "k"}
@@ -73,6 +77,13 @@ func Setup() {
 			asts = append(asts, ast)
 		}
 		Progs = append(Progs, asts)
+	}
+	for _, x := range expected {
+		v, err := lisp.READ(x, nil, Env)
+		if err != nil {
+			panic(err)
+		}
+		Expected = append(Expected, v)
 	}
 	for _, t := range templates {
 		ast, err := lisp.READ(subst(t, "s"), nil, Env)
@@ -136,6 +147,7 @@ func experiment(ka, kb int) {
 			continue
 		}
 		vrt.Assert(lib.RefEq(results[t].v, Solo[k][0]), "an evaluation returns something else than when run alone: "+templates[k])
+		vrt.Assert(lib.RefEq(results[t].v, Expected[k]), "an evaluation on the shared environment returns something else than the language prescribes: "+templates[k])
 	}
 }
 
